@@ -2,7 +2,7 @@
    harness observes of the Go run. *)
 From Coq Require Import List ZArith Bool.
 From Verif Require Spec.Visited Spec.Rules Spec.Walk.
-From Verif Require Import Base.Sx Base.GoVal Base.F64 Schema.Ast Schema.Pipeline Schema.Simple Schema.Draft4 Schema.Classes Schema.Helpers Schema.Post Schema.AgreementDec Schema.PipelineTermDec Schema.SimpleAgree Schema.SimpleAgreeDec.
+From Verif Require Import Base.Sx Base.GoVal Base.F64 Schema.Ast Schema.Pipeline Schema.Simple Schema.Draft4 Schema.Classes Schema.Helpers Schema.Post Schema.AgreementDec Schema.AgreementRec Schema.PipelineTermDec Schema.SimpleAgree Schema.SimpleAgreeDec.
 Import ListNotations.
 Open Scope Z_scope.
 
@@ -79,7 +79,14 @@ Definition run_schema (s : sx) : sx :=
               (let K := length dfs in
                (* the largest level the fuel of the case allows (AgreementRef.agreement_with_references): n + K < fuel, n * (K + 1) <= fuel *)
                let n := Nat.min (fuel - K - 1) (Nat.div fuel (S K)) in
-               let inside (an aa : bool) := cleanr_b f_finite an aa orc dfs K n sch && jd_b f_finite an aa (S (goval_depth data)) data in
+               (* ... or through recursive definitions (AgreementRec.decided_fragment_agrees): a rank exists and every schema
+                  below the root and the definitions is of the clean class *)
+               let Kr := Nat.min fuel 48 in
+               let R := fold_right Nat.max O (map (max_rank dfs Kr fuel) (roots dfs sch)) in
+               let fits := (goval_depth data * S R + urank dfs Kr sch <? fuel)%nat in
+               let inside (an aa : bool) :=
+                 jd_b f_finite an aa (S (goval_depth data)) data &&
+                 (cleanr_b f_finite an aa orc dfs K n sch || (fits && cleang_b f_finite an aa orc dfs Kr R fuel sch)) in
                ofBool (inside false false || inside false true || inside true false || inside true true));
               (* is the case inside the class on which a verdict is proved to be returned with this fuel
                  (Schema/PipelineTermRec.v, decided by PipelineTermDec.v)? *)
